@@ -203,6 +203,10 @@ def _no_immediate_retry(self, sim, ev):
                     h = W.dec_header(d.data)
                     self.backoff[(ev.ep.name, h['spi_i'], h['spi_r'])] = now
     if ev.kind == 'rekey_ike':
+        # the harness forced a new attempt itself: what follows at this instant (e.g. its INVALID_KE_PAYLOAD retry) is that
+        # attempt's business, not a retry of the refused one
+        for key in [k_ for k_ in self.backoff if k_[0] == ev.ep.name]:
+            del self.backoff[key]
         return
     for o in ev.out:
         if len(o.data) < 28 or o.data[18] != 36 or o.data[19] & 0x20:
